@@ -130,11 +130,16 @@ func (db *DB) DeleteChannels(chs []ChannelKey) (err error) {
 	for _, ch := range chs {
 		udb, uok := db.mu.dbs.unary[ch]
 
-		if !uok || udb.Channel().IsIndex {
-			if udb.Channel().IsIndex {
-				indexChannels = append(indexChannels, ch)
-			}
+		if uok && udb.Channel().IsIndex {
+			indexChannels = append(indexChannels, ch)
 			continue
+		}
+		if !uok {
+			// Virtual channels live in their own map. Channels the database does not
+			// know are skipped, which keeps DeleteChannels idempotent.
+			if _, vok := db.mu.dbs.virtual[ch]; !vok {
+				continue
+			}
 		}
 
 		err = db.removeChannel(ch)
